@@ -2,6 +2,7 @@ import RzmqModel.Model.Pool
 import RzmqModel.Props.C04
 import RzmqModel.Proofs.Pool
 import RzmqModel.Model.Tracker
+import RzmqModel.Proofs.Tracker
 /-!
 # C20 — the io_uring backend is observably equivalent to the Tokio backend
 
@@ -83,6 +84,46 @@ theorem op_table_shape :
   decide
 
 theorem current_table_is_the_proved_one : currentTrkCfg = { close := .keepAll, byKind := true, keepsSlot := true } := by decide
+
+
+/-- whatever is submitted on whatever descriptors, whichever descriptors are closed in between, and in whatever order the
+kernel posts its completions (zero-copy sends completing twice): no completion is ever processed with the entry of another
+operation, and none finds its entry gone -/
+theorem completions_reach_their_own_operation (evs : List TrkEv) :
+    (TrkSys.run currentTrkCfg {} evs).misattributed = [] ∧ (TrkSys.run currentTrkCfg {} evs).unknown = [] := by
+  rw [current_table_is_the_proved_one]
+  have h := TrkSys.inv_run TrkSys.inv_init evs
+  exact ⟨h.mis, h.unk⟩
+
+/-- the buffers of every operation the kernel still holds are still owned by the table (nothing the kernel reads from or
+writes to has been freed), in every reachable state -/
+theorem kernel_held_buffers_stay_alive (evs : List TrkEv) :
+    ∀ ko ∈ (TrkSys.run currentTrkCfg {} evs).kernel, (TrkSys.run currentTrkCfg {} evs).holds ko = true := by
+  rw [current_table_is_the_proved_one]
+  exact (TrkSys.inv_run TrkSys.inv_init evs).holds
+
+/-- no two operations in the kernel share a `user_data` -/
+theorem user_data_is_unique_among_kernel_held_operations (evs : List TrkEv) :
+    ((TrkSys.run currentTrkCfg {} evs).kernel.map (·.key)).Nodup := by
+  rw [current_table_is_the_proved_one]
+  exact (TrkSys.inv_run TrkSys.inv_init evs).keys
+
+/-- nothing leaks: once the kernel holds nothing, the table is empty -/
+theorem table_empties_with_the_kernel (evs : List TrkEv) (h : (TrkSys.run currentTrkCfg {} evs).kernel = []) :
+    (∀ k, (TrkSys.run currentTrkCfg {} evs).t.slabGet k = none) ∧ (TrkSys.run currentTrkCfg {} evs).t.notif = [] := by
+  rw [current_table_is_the_proved_one] at h ⊢
+  exact (TrkSys.inv_run TrkSys.inv_init evs).empty h
+
+/-- after the CloseFd completion for a descriptor, no entry names that descriptor any more: the next connection that is
+given the same number finds nothing of its predecessor -/
+theorem closed_descriptor_is_not_named (t : Tracker) (fd : Int) (hfd : fd ≠ orphanFd) :
+    (∀ k e, (t.closeFd .keepAll fd).1.slabGet k = some e → e.fd ≠ fd)
+    ∧ (∀ p ∈ (t.closeFd .keepAll fd).1.notif, p.2.fd ≠ fd) := by
+  exact Tracker.closeFd_keepAll_not_named t hfd
+
+/-- … and nothing is dropped at that moment -/
+theorem close_drops_nothing (t : Tracker) (fd : Int) (hfd : fd ≠ orphanFd) : (t.closeFd .keepAll fd).2 = [] := by
+  exact Tracker.closeFd_keepAll_drops_nothing t hfd
 
 /-- non-vacuity: a history with a close in the middle of everything -/
 example : (TrkSys.run currentTrkCfg {} [.submit 5 .send, .submit 5 .read, .submit 5 (.zc 3), .first 2, .submit 6 (.zc 4),
